@@ -44,12 +44,14 @@ Qed.
    nor through the constructor.  Empty on the pinned tree: every read is covered by one of
      - fp_serialized: restored by setattr from the tree (`_deserialize` / `_deserialize_attrs`),
      - fp_ctor:       restored by `cls( **params )` (sklearn get_params reads the current attribute value),
-     - fp_init_only:  assigned by the reachable constructors and never changed afterwards (`_params`, `attrs`,
-                      the Preprocessor's list transformers, ...), hence rebuilt by `cls( **params )`. *)
+     - fp_init_only:  assigned by the reachable constructors and never changed afterwards, neither by assignment nor
+                      in place (`_params`, `attrs`, dimension names, ...), hence rebuilt by `cls( **params )`,
+     - fp_custom_restored: the seven transformer slots of the Preprocessor, which `Preprocessor.deserialize`
+                      rebuilds from the sub-trees in its own loop over `transformer_types()`. *)
 Definition allowed_runtime (cls : string) : list string := [].
 
 Definition restored_fields (fp : footprint) : list string :=
-  fp_serialized fp ++ fp_ctor fp ++ fp_init_only fp ++ allowed_runtime (fp_class fp).
+  fp_serialized fp ++ fp_ctor fp ++ fp_init_only fp ++ fp_custom_restored fp ++ allowed_runtime (fp_class fp).
 
 Definition unrestored_reads (fp : footprint) : list (string * string) :=
   filter (fun mf => negb (mem (snd mf) (restored_fields fp))) (fp_reads fp).
@@ -62,7 +64,8 @@ Proof. vm_compute; reflexivity. Qed.
 
 Theorem every_read_field_is_restored : forall fp, In fp footprints ->
   forall m f, In (m, f) (fp_reads fp) ->
-  In f (fp_serialized fp) \/ In f (fp_ctor fp) \/ In f (fp_init_only fp) \/ In f (allowed_runtime (fp_class fp)).
+  In f (fp_serialized fp) \/ In f (fp_ctor fp) \/ In f (fp_init_only fp) \/ In f (fp_custom_restored fp) \/
+  In f (allowed_runtime (fp_class fp)).
 Proof.
   intros fp Hfp m f Hin.
   pose proof (proj1 (forallb_forall footprint_ok footprints) footprints_ok fp Hfp) as Hok.
@@ -74,7 +77,8 @@ Qed.
 (* the classes the obligation ranges over *)
 Lemma footprint_classes : map fp_class footprints =
   ["Scaler"; "Stacker"; "Sanitizer"; "MultiIndexConverter"; "DimensionRenamer"; "Concatenator"; "Whitener"; "PCA";
-   "Preprocessor"; "DataContainer"; "BaseModelSingleSet"; "BaseModelCrossSet"; "EOFRotator"; "CPCCARotator"; "POP"; "OPA"].
+   "Preprocessor"; "DataContainer"; "BaseModelSingleSet"; "BaseModelCrossSet"; "EOFRotator"; "CPCCARotator"; "POP"; "OPA";
+   "EOF"; "ComplexEOF"; "HilbertEOF"; "ExtendedEOF"; "SparsePCA"; "CPCCA"; "ComplexCPCCA"; "HilbertCPCCA"; "MCA"; "CCA"; "RDA"].
 Proof. reflexivity. Qed.
 
 (* `cls( **dt.attrs["params"] )` is a valid call: every key of `self._params` is a constructor parameter *)
@@ -97,5 +101,11 @@ Proof. vm_compute; reflexivity. Qed.
 
 (* non-vacuity: the obligation ranges over real reads *)
 Example footprint_nonempty :
-  length (concat (map fp_reads footprints)) >= 100 /\ In ("transform", "sorted") (fp_reads fp_CPCCARotator).
+  length (concat (map fp_reads footprints)) >= 100 /\ In ("transform", "sorted") (fp_reads fp_CPCCARotator) /\
+  In ("get_transformers", "stacker") (fp_reads fp_Preprocessor) /\ In "stacker" (fp_custom_restored fp_Preprocessor).
 Proof. vm_compute. split; [repeat constructor | tauto]. Qed.
+
+(* the Preprocessor slots are the only fields covered by a class-specific deserialisation *)
+Lemma custom_restored_only_preprocessor :
+  forallb (fun fp => match fp_custom_restored fp with [] => true | _ => String.eqb (fp_class fp) "Preprocessor" end) footprints = true.
+Proof. vm_compute; reflexivity. Qed.
